@@ -19,6 +19,7 @@ Layer 2 (histories)
     c09.closure.vw             two interacting vectors of size 2, closure (all histories of any length) on a small lattice
     c09.heap.n{2,3}            heap {v, w, u(size 1), m (logical), A (2 x n)} with in-place operations between
                                heap members (incl. an object with itself) and constants, depth 2 (quick) / 3 (thorough)
+    c09.buffer                 heap {v, m, A} with to_flat_array(buffer) into buffers that are reused across calls (convert, mutate, convert again)
     c09.heap.alias             heap {v, A, r} where r IS the first row of A (operand overlapping its in-place target)
     c09.heap.deep              heap {v, w, A} over a 50-action alphabet without division, depth 3 (quick) / 6 or the time cap
 
@@ -1267,8 +1268,13 @@ def ro_actions(tk, tier):
 
 
 class ReadOnlySystem(System):
-    """every write through a read-only target must raise and leave it unchanged; whether the operation WOULD have changed the
-    target is decided on the dense images (an operation that NumPy itself rejects or that is outside the domain is skipped)"""
+    """Every write path against a target that is read-only as a whole or in SOME of its rows (config[2] = one flag per row; a frozen
+    vector shared as a row of an array is the same thing).  Oracle, evaluated for every write:
+      * the contents of a read-only vector / row never change;
+      * a write that raises has modified nothing at all (no earlier row may be written before the rejection);
+      * a write that returns normally has produced exactly NumPy's result on the dense image (so it cannot have skipped the
+        read-only rows silently) -- together with the first clause this means it did not need to touch a read-only row.
+    Operations that NumPy itself cannot evaluate for a non-shape reason are outside the domain and skipped."""
     nontrivial_per_config = True
     def __init__(self, tk):
         self.tk = tk; self.name = f'c09.readonly.{tk}'; self._tier = 'quick'
@@ -1283,74 +1289,142 @@ class ReadOnlySystem(System):
             # (SparseArray.setflags(0) raises AttributeError on logical rows) there is no read-only logical object to examine
             if 'read_only' not in getattr(sp().SparseLogicalVector, '__slots__', ()): return []
             if self.tk == 'SLV': return rot([('SLV', d) for d in _grid((2,), BOOLS)], seed)
-            return rot([('SAb', d) for d in _grid((2, 2), BOOLS)], seed)
-        return rot([('SA', d) for d in _grid((2, 2), VALS2)] + [('SA', ((1.0, -1.0), (0.5, 0.0)))], seed)
+            full = [('SAb', d) for d in _grid((2, 2), BOOLS)]
+            some = [((True, False), (False, True)), ((True, True), (True, True)), ((False, False), (False, False)), ((False, False), (True, True))]
+            out = full + [('SAb', d, f) for f in ((True, False), (False, True)) for d in some]
+            if tier == 'thorough':
+                d3 = [((True, False), (False, True), (True, True)), ((False, False), (True, True), (False, False))]
+                out += [('SAb', d, f) for f in itertools.product(BOOLS, repeat=3) if any(f) and not all(f) for d in d3]
+            return rot(out, seed)
+        full = [('SA', d) for d in _grid((2, 2), VALS2)] + [('SA', ((1.0, -1.0), (0.5, 0.0)))]
+        some = [((1.0, -1.0), (0.5, 0.0)), ((-1.0, -1.0), (-1.0, -1.0)), ((0.0, 0.0), (0.0, 0.0)), ((0.0, 0.0), (1.0, 0.5)), ((-0.5, 1.0), (0.0, 0.0))]
+        out = full + [('SA', d, f) for f in ((True, False), (False, True)) for d in some]          # row 0 only / row 1 only
+        if tier == 'thorough':
+            d3 = [((1.0, -1.0), (0.5, 0.0), (-1.0, 1.0)), ((0.0, 0.0), (1.0, 0.5), (0.0, 0.0))]
+            out += [('SA', d, f) for f in itertools.product(BOOLS, repeat=3) if any(f) and not all(f) for d in d3]   # every mixed pattern of 3 rows
+        return rot(out, seed)
     def build(self, config):
         st = St(); st.tspec = config
-        st.T, st.td = build_operand(config)
-        st.T.setflags(0)
-        st.nontriv = False; st.okey = None; st.extra = None
+        st.T, st.td = build_operand(config[:2])
+        flags = config[2] if len(config) > 2 else None
+        if flags is None:
+            st.T.setflags(0)
+            st.extra = None
+        else:
+            for row, f in zip(st.T.rows, flags):
+                if f: row.setflags(0)
+            st.extra = tuple(bool(f) for f in flags)
+        st.nontriv = False; st.okey = None
         return st
     def canon(self, st): return (st.tspec, dg(st.T), st.okey)
-    def actions(self, st): return ro_actions(self.tk, self._tier)
+    def actions(self, st):
+        shp = st.td.shape
+        if len(shp) == 2 and shp[0] == 3:
+            key = ('3rows', self.tk)
+            if key not in _RO3: _RO3[key] = ro_actions3(self.tk)
+            return _RO3[key]
+        return ro_actions(self.tk, self._tier)
     def nontrivial(self, st, a, obs): return st.nontriv
     def outcome(self, st, a, obs): return repr(st.okey)
 
     def step(self, st, a):
         S = sp()
         T, td = st.T, st.td
+        flags = st.extra
         d0 = dg(T)
+        ro_rows0 = None if flags is None else [dg(r) for r, f in zip(T.rows, flags) if f]
         kind = a[0]
         opname = a[1] if kind == 'iop' else kind
-        match = dict(fam='readonly', tk=self.tk, op=opname)
-        # would the write be legal on a writable dense array?  (only then a rejection is demanded *because of* the flag;
-        # if NumPy rejects for shape reasons a rejection is demanded anyway)
+        match = dict(fam='readonly', tk=self.tk, op=opname, ro='all' if flags is None else 'rows')
+        # the same write on a writable dense array: its result (a normal return must reproduce it), a shape rejection (then a
+        # rejection is demanded anyway) or outside the domain
+        expected = None
         try:
             if kind == 'iop':
                 O, od = build_operand(a[2]); match['okc'] = operand_class(a[2][0]); match['op'] = 'iop'
                 real = lambda: IOP[a[1]](T, O)
-                run_ref(lambda d, o: IOP[a[1]](d, o), td.copy(), od)
+                expected = run_ref(lambda d, o: IOP[a[1]](d, o), td.copy(), od)
             elif kind == 'set':
                 ri, ni = mk_index(a[1]); V, vd = build_operand(a[2])
                 match['icat'] = index_cat(index_class(a[1], td.shape[0] if (td.ndim == 1 or a[1][0] != 'tuple') else td.shape))
                 match['ifam'] = index_fam(a[1])
                 def real(): T[ri] = V
                 def f(d, v): d[ni] = v; return d
-                run_ref(f, td.copy(), vd)
-            elif kind == 'clear': real = lambda: T.clear()
-            elif kind == 'remove_negatives': real = lambda: T.remove_negatives()
-            elif kind == 'from_flat_array': real = lambda: T.from_flat_array(np.ones(td.size))
+                expected = run_ref(f, td.copy(), vd)
+            elif kind == 'clear': real = lambda: T.clear(); expected = np.zeros_like(td)
+            elif kind == 'remove_negatives':
+                real = lambda: T.remove_negatives(); expected = td.copy()
+                if td.dtype != bool: expected[expected < 0] = 0
+            elif kind == 'from_flat_array': real = lambda: T.from_flat_array(np.ones(td.size)); expected = np.ones(td.shape, td.dtype)
             elif kind == 'copy_like':
                 other = ~td if td.dtype == bool else td + 1
                 src, _ = build_operand((self.tk, tuple(map(tuple, other.tolist())) if td.ndim == 2 else tuple(other.tolist())))
-                real = lambda: T.copy_like(src)
+                real = lambda: T.copy_like(src); expected = other
             elif kind == 'mix_from':
-                src, _ = build_operand(('SV', (1.0, 0.5)))
+                src, sd = build_operand(('SV', (1.0, 0.5)))
                 real = (lambda: T.mix_from([src])) if a[1] == 0 else (lambda: T.mix_from([src, T]))
+                expected = sd.copy() if a[1] == 0 else sd + td
             else: raise ValueError(a)
         except RefOutside as e:
             st.okey = (self.tk, opname, 'outside'); raise Rejected(f'outside-domain:{e}', cut=True)
         except RefShape:
-            pass
+            expected = None
         exc = None
         try: real()
         except Exception as e: exc = e   # noqa
         changed = dg(T) != d0
-        st.okey = (self.tk, opname, match.get('ifam'), match.get('okc'), type(exc).__name__ if exc else None, changed)
-        if changed:
-            raise Violation('read-only-modified', f'read-only target changed by {a!r}: {d0!r} -> {dg(T)!r}'
+        ro_changed = changed if flags is None else ([dg(r) for r, f in zip(T.rows, flags) if f] != ro_rows0)
+        st.okey = (self.tk, opname, match['ro'], match.get('ifam'), match.get('okc'), type(exc).__name__ if exc else None, changed)
+        if ro_changed:
+            raise Violation('read-only-modified', f'read-only {"target" if flags is None else "row (flags " + repr(flags) + ")"} changed by {a!r}: {d0!r} -> {dg(T)!r}'
                             + (f' (raised {type(exc).__name__})' if exc else ' (no exception)'),
                             match=dict(match, dev='raised' if exc else 'silent'))
-        if exc is None:
-            # nothing changed and nothing raised (a write that is a no-op for these contents): the read-only data is intact; counted, not a violation
-            return ('noop-accepted',)
-        st.nontriv = True
-        raise Rejected(f'read-only:{type(exc).__name__}', cut=False)
+        if exc is not None:
+            if changed:
+                raise Violation('rejected-but-modified', f'{a!r} raised {type(exc).__name__} after writable rows were already written: {d0!r} -> {dg(T)!r}',
+                                match=dict(match, dev=type(exc).__name__))
+            st.nontriv = True
+            raise Rejected(f'read-only:{type(exc).__name__}', cut=False)
+        # returned normally
+        p = repr_problems(T)
+        if p: raise Violation('representation', f'target after {a!r}: {p[0][1]}', match=dict(match, dev=p[0][0]))
+        if expected is None:
+            raise Violation('shape-mismatch-not-rejected', f'NumPy rejects {a!r} for its shapes, the sparse write returned normally; target {_short(T)}',
+                            match=dict(match, dev='returned'))
+        d = compare(image(T), np.asarray(expected).astype(td.dtype))
+        if d:
+            raise Violation('read-only-partial-write', f'{a!r} returned normally but the target is {image(T).tolist()!r}; the write on a writable array gives '
+                            f'{np.asarray(expected).tolist()!r} (flags {flags!r})', match=dict(match, dev=d))
+        # a write that does not need to change read-only data (a no-op for these contents, or one that only touches writable rows)
+        return ('noop-accepted',) if not changed else ('writable-rows-written',)
+
+
+_RO3 = {}
+
+def ro_actions3(tk):
+    """write paths against a 3 x 2 array with some read-only rows"""
+    acts = []
+    if tk == 'SAb':
+        oth = [('pb', True), ('pb', False), ('a1b', (True, False)), ('SLV', (False, True)), ('SAb', ((True, True), (False, True), (True, False))), ('SAb', ((True, False),))]
+        ops = ('iadd', 'imul', 'iand', 'ior', 'ixor')
+        vals = [('pb', True), ('pb', False), ('a1b', (True, False)), ('SLV', (False, True))]
+    else:
+        oth = [('pf', 1.0), ('pf', 0.5), ('pf', 0.0), ('a1', (1.0, -1.0)), ('SV', (-1.0, 0.5)), ('SV', (1.0,)),
+               ('a2', ((1.0, 1.0), (0.5, -1.0), (2.0, 0.0))), ('SA', ((1.0, 1.0), (0.5, -1.0), (2.0, 0.0))), ('SA', ((1.0, -1.0),))]
+        ops = ('iadd', 'isub', 'imul', 'itruediv')
+        vals = [('pf', 0.0), ('pf', 0.5), ('a1', (0.5, 0.0)), ('SV', (0.0, 1.0))]
+    for op in ops:
+        for o in oth: acts.append(('iop', op, o))
+    idx = arr_indices(3, 2, 'quick')
+    for ix in idx:
+        for v in vals: acts.append(('set', ix, v))
+    acts += [('clear',), ('remove_negatives',), ('from_flat_array',), ('copy_like',)]
+    return acts
 
 # ---- Layer 2: histories ------------------------------------------------------------------------------------
 
 class HeapSt:
-    __slots__ = ('objs', 'mir', 'names', 'nontriv', 'okey', 'lat', 'cfg', 'hist', 'dirty')
+    __slots__ = ('objs', 'mir', 'names', 'nontriv', 'okey', 'lat', 'cfg', 'hist', 'dirty', 'buf')
 
 _MEMO = {}          # (system name, config, history) -> snapshot of a state reached by an accepted transition (per process)
 _MEMO_MAX = 150_000
@@ -1439,6 +1513,12 @@ class HeapSystem(System):
         st.lat = self._lq if self._tier == 'quick' else self._lt
         st.cfg = config; st.hist = ()
         st.dirty = None            # None: check every object (initial state)
+        st.buf = {}
+        if self.consts == 'buffer':
+            # caller-supplied output buffers of to_flat_array, kept across calls (filled with a sentinel that no conversion produces)
+            for nm in st.names:
+                d = st.mir[nm]
+                st.buf[nm] = np.full(d.size, True) if d.dtype == bool else np.full(d.size, 7.0)
         return st
 
     # -- alphabet
@@ -1446,6 +1526,7 @@ class HeapSystem(System):
         n = self.n
         if self.consts == 'tiny':
             return [('pf', -1.0), ('pf', 0.5), ('SV', (1.0,) + (0.0,) * (n - 1)), ('a1', (-1.0,) * n)]
+        if self.consts == 'buffer': return []
         if self.consts == 'pair':
             return [('pf', -1.0), ('pf', 0.5), ('pf', 2.0), ('pf', 1.0), ('SV', (1.0,) + (0.0,) * (n - 1)), ('a1', (-1.0,) * n),
                     ('a1', (0.0,) * (n - 1) + (2.0,)), ('SV', (-1.0,) * n), ('SV', (0.5,)), ('SV', (0.0,)), ('l1', (2.0, -1.0)[:n])]
@@ -1469,6 +1550,24 @@ class HeapSystem(System):
         acts = []
         cs = self._consts(tier)
         fl = [m for m in self.members if m in ('v', 'w', 'u', 'A')]
+        if self.consts == 'buffer':
+            # mutations that create and remove entries / whole rows, and conversion of every member into its reused buffer
+            z2 = ((1.0,) * n, (0.0,) * n); z1 = ((0.0,) * n, (1.0,) * n)
+            for t in self.members:
+                acts.append(('flat', t))
+                if t == 'm':
+                    acts += [('iop', t, 'iand', ('SLV', (False,) * (n - 1) + (True,))), ('iop', t, 'ior', ('SLV', (True,) + (False,) * (n - 1))),
+                             ('set', t, ('int', 0), ('pb', False)), ('set', t, ('int', n - 1), ('pb', True)), ('set', t, ('slice', (None, None)), ('pb', False))]
+                elif t == 'A':
+                    acts += [('iop', t, 'imul', ('pf', 0.0)), ('iop', t, 'iadd', ('pf', 1.0)), ('iop', t, 'imul', ('a2', z2)), ('iop', t, 'imul', ('a2', z1)),
+                             ('iop', t, 'isub', ('heap', 'A')), ('set', t, ('int', 0), ('pf', 0.0)), ('set', t, ('int', 1), ('pf', 0.0)),
+                             ('set', t, ('tuple', (('int', 1), ('int', 0))), ('pf', 0.5)), ('set', t, ('tuple', (('int', 0), ('int', n - 1))), ('pf', -1.0)),
+                             ('set', t, ('int', 1), ('heap', 'v')), ('call', t, 'clear'), ('call', t, 'remove_negatives')]
+                else:
+                    acts += [('iop', t, 'imul', ('pf', 0.0)), ('iop', t, 'iadd', ('pf', 1.0)), ('iop', t, 'isub', ('SV', (1.0,) + (0.0,) * (n - 1))),
+                             ('set', t, ('int', 0), ('pf', 0.0)), ('set', t, ('int', n - 1), ('pf', 1.0)), ('call', t, 'clear'), ('call', t, 'remove_negatives')]
+            self._acts[tier] = acts
+            return acts
         if self.consts == 'pair':
             # two interacting vectors, every in-place kernel family (scalar / dense / sparse / length-1 operand, the other heap member and itself)
             for t in self.members:
@@ -1555,6 +1654,7 @@ class HeapSystem(System):
         for nm in st.names:
             o = st.objs[nm]
             out.append((nm, dg(o), tuple(sorted(ids.setdefault(i, len(ids)) for i in ())), tuple(np.asarray(st.mir[nm]).ravel().tolist()), st.mir[nm].shape))
+        for nm in sorted(st.buf): out.append(('buf', nm, tuple(st.buf[nm].tolist())))
         return tuple(out)
 
     def invariants(self, st):
@@ -1582,7 +1682,8 @@ class HeapSystem(System):
         key = (self.name, st.lat, st.cfg, st.hist + (a,))
         hit = _MEMO.get(key)
         if hit is not None:
-            snap, obs, okey, nontriv = hit
+            snap, obs, okey, nontriv, bufs = hit
+            st.buf = {k: v.copy() for k, v in bufs.items()}
             for nm, (r, mir) in zip(st.names, snap):
                 st.objs[nm] = _unsnap_one(r); st.mir[nm] = mir.copy()
             if 'r' in st.names:
@@ -1594,7 +1695,7 @@ class HeapSystem(System):
         obs = self._step(st, a)
         st.hist = key[3]
         if len(_MEMO) > _MEMO_MAX: _MEMO.clear()
-        _MEMO[key] = (_snap(st), obs, st.okey, st.nontriv)
+        _MEMO[key] = (_snap(st), obs, st.okey, st.nontriv, {k: v.copy() for k, v in st.buf.items()})
         return obs
 
     def _step(self, st, a):
@@ -1612,6 +1713,27 @@ class HeapSystem(System):
             O, od = build_operand(spec)
             return O, od, spec[0]
         st.okey = None
+        if kind == 'flat':
+            # conversion into a caller-supplied buffer that is REUSED across calls: the whole buffer must hold the current dense image
+            buf = st.buf[t]; d0 = dg(T); before = buf.copy()
+            match = dict(fam='history', tk=tk, opc='to_flat_array')
+            try:
+                res = T.to_flat_array(buf)
+            except Exception as e:
+                raise Violation('unexpected-exception', f'{t}.to_flat_array(buffer) raises {type(e).__name__}: {e}', match=dict(match, dev=type(e).__name__))
+            self._others_unchanged(st, t, others_before, a)
+            if dg(T) != d0:
+                raise Violation('operand-modified', f'to_flat_array changed its object: {d0!r} -> {dg(T)!r}', match=dict(match, dev='target'))
+            want = td.ravel().astype(buf.dtype)
+            if res is not buf:
+                raise Violation('buffer-conversion', 'to_flat_array(buffer) did not return the buffer it was given', match=dict(match, dev='not-the-buffer'))
+            if not np.array_equal(buf, want):
+                stale = bool(np.any((buf != want) & (buf == before)))
+                raise Violation('buffer-conversion', f'{t}.to_flat_array(buffer): buffer was {before.tolist()!r}, is now {buf.tolist()!r}, '
+                                f'dense image is {want.tolist()!r}', match=dict(match, dev='stale' if stale else 'value'))
+            st.nontriv = bool(np.any((before != want) & (want == 0)))       # an entry of the reused buffer had to be reset to zero
+            st.okey = (tk, 'flat', bool(np.any(before != want)), st.nontriv)
+            return ('ok', 'buffer')
         try:
             if kind == 'iop':
                 op = a[2]
@@ -1704,6 +1826,8 @@ SYSTEMS = [
     HeapSystem('c09.heap.n2', 2, ('v', 'w', 'u', 'm', 'A'), 2, 3, consts='small', tcap_q=60, tcap_t=200),
     HeapSystem('c09.heap.n3', 3, ('v', 'w', 'm', 'A'), 2, 3, consts='small', tcap_q=60, tcap_t=200),
     # deep search over a small alphabet (no division): depth 3 (quick) / 6 (thorough, or the time cap)
+    # conversion into caller-supplied buffers that are reused across calls (to_flat_array(buffer)): convert, mutate, convert again
+    HeapSystem('c09.buffer', 2, ('v', 'm', 'A'), 3, 5, consts='buffer', lattice_q=(2, 16), lattice_t=(2, 16), tcap_q=60, tcap_t=180),
     # aliasing inside the heap: r is the first ROW of A (NumPy semantics for overlapping operands: as if the operand were copied first)
     HeapSystem('c09.heap.alias', 2, ('v', 'A', 'r'), 2, 4, consts='tiny', lattice_q=(2, 8), lattice_t=(4, 32), tcap_q=60, tcap_t=180),
     HeapSystem('c09.heap.deep', 2, ('v', 'w', 'A'), 3, 6, consts='tiny', lattice_q=(2, 8), lattice_t=(4, 32), tcap_q=60, tcap_t=150),
